@@ -69,7 +69,8 @@ func (h HTLC) Validate() error {
 	if h.ExpirationHeight == 0 {
 		return errorsmod.Wrapf(ErrInvalidExpirationHeight, "expire height cannot be 0")
 	}
-	if h.Timestamp == 0 {
+	// the timestamp is optional for ordinary contracts; only cross-chain transfers require it
+	if h.Transfer && h.Timestamp == 0 {
 		return errorsmod.Wrapf(ErrInvalidTimestamp, "timestamp cannot be 0")
 	}
 	if err := ValidateAmount(h.Transfer, h.Amount); err != nil {
